@@ -203,21 +203,23 @@ theorem scan_loop (b : Bytes) (tape : Array UInt64) (fuel : Nat) :
     have hdr := (drop_facts b k x xs hd).2.1
     have hstep := loop_step b fuel s fu k x xs hd hb hf
     simp only [] at hstep
-    rw [NumberProofs.scan, execRangeI_cons, hstep]
-    trace_state
-    by_cases c0 : numRune x = 0
-    · simp only [c0, if_true]
+    rcases Classical.em (numRune x = 0) with c0 | c0
+    · rw [NumberProofs.scan, execRangeI_cons, hstep]
+      simp only [c0, if_true]
       exact ⟨_, rfl, ht⟩
-    · by_cases c8 : numRune x = 8
-      · simp only [c0, c8, if_true, if_false]
+    · rcases Classical.em (numRune x = 8) with c8 | c8
+      · rw [NumberProofs.scan, execRangeI_cons, hstep]
+        simp only [c0, c8, if_true, if_false]
         refine ⟨_, fu, rfl, ht, ?_, ?_, rfl, ?_, hk⟩ <;> simp [hb, hf, hp]
-      · by_cases cm : numRune x &&& 32 > 0 ∧ (xs = [] ∨ numRune (xs.headD 0) &&& 16 = 0)
-        · simp only [c0, c8, cm, if_true, if_false]
+      · rcases Classical.em (numRune x &&& 32 > 0 ∧ (xs = [] ∨ numRune (xs.headD 0) &&& 16 = 0)) with cm | cm
+        · rw [NumberProofs.scan, execRangeI_cons, hstep]
+          simp only [c0, c8, cm, if_true, if_false]
           exact ⟨_, rfl, ht⟩
-        · simp only [c0, c8, cm, if_true, if_false]
-          have := ih (k + 1) ⟨((((s.env.set "i" (.int k)).set "v" (.u8 x)).set "t" (.u8 (runeU8 x))).set "found"
+        · have := ih (k + 1) ⟨((((s.env.set "i" (.int k)).set "v" (.u8 x)).set "t" (.u8 (runeU8 x))).set "found"
               (.u8 (fu ||| runeU8 x))).set "pos" (.int ((k : Int) + 1)), s.tape⟩ (fu ||| runeU8 x) hdr (by omega) ht
               (by simp [hb]) (by simp) (by simp)
           rw [UInt8.toNat_or, runeU8_toNat] at this
+          rw [NumberProofs.scan, execRangeI_cons, hstep]
+          simp only [c0, c8, cm, if_true, if_false]
           exact this
 end Loop
